@@ -8,6 +8,8 @@ import (
 	"net/http"
 	"strconv"
 	"sync"
+	"sync/atomic"
+	"time"
 )
 
 // memTransport is an http.RoundTripper that hands the request to an
@@ -24,8 +26,14 @@ import (
 //     cancelled once the server notices: at a read of the request body (which
 //     fails) or at once if the request body had been read to its end;
 //   - the handler's context is cancelled when ServeHTTP returns.
+//   - (slow > 0, free-running scripts only) the reply body trickles in: the
+//     client's reads get a bounded number of bytes each, a moment apart, and
+//     the body of an error reply arrives well after its header -- a slow
+//     network or a proxy between the two.
 type memTransport struct {
-	h http.Handler
+	h     http.Handler
+	slow  int64 // seed of the slow-reply environment, 0 = off
+	nslow int64
 }
 
 const maxPostHandlerReadBytes = 256 << 10
@@ -58,6 +66,9 @@ type memCall struct {
 	ferr       error
 	werr       error
 	clientGone bool
+	chunk      int // slow replies: bytes per read ...
+	delay      time.Duration
+	errDelay   time.Duration // ... and the wait before each read (of an error reply)
 }
 
 // ---- request body as seen by the server
@@ -194,6 +205,19 @@ type memRespBody struct{ c *memCall }
 
 func (b *memRespBody) Read(p []byte) (int, error) {
 	c := b.c
+	if c.chunk > 0 {
+		d := c.delay
+		if c.status != http.StatusOK {
+			d = c.errDelay
+		}
+		select {
+		case <-time.After(d):
+		case <-c.ctx.Done():
+		}
+		if len(p) > c.chunk {
+			p = p[:c.chunk]
+		}
+	}
 	c.mu.Lock()
 	defer c.mu.Unlock()
 	for {
@@ -231,6 +255,12 @@ func (t *memTransport) RoundTrip(req *http.Request) (*http.Response, error) {
 	}
 	c := &memCall{ctx: ctx, hdr: http.Header{}, sentCh: make(chan struct{}), pumpDone: make(chan struct{})}
 	c.cond = sync.NewCond(&c.mu)
+	if sl := atomic.LoadInt64(&t.slow); sl != 0 {
+		n := sl + atomic.AddInt64(&t.nslow, 1)*7
+		c.chunk = []int{16, 16, 700, 4096}[(sl>>1)%4] // (one size per script)
+		c.delay = []time.Duration{30, 120, 400}[(n/4)%3] * time.Microsecond
+		c.errDelay = []time.Duration{500, 2000, 6000}[(n/12)%3] * time.Microsecond
+	}
 	c.sctx, c.scancel = context.WithCancel(context.Background())
 	c.src = req.Body
 	if c.src == nil {
